@@ -10,10 +10,17 @@
 //   -DCFG_CMP=0..3     0 = std::less, 1 = std::greater, 2 = ModLess (coarse: compares v % 5, stateless),
 //                      3 = StatefulLess (compares v % m, m given at construction; default constructed m = 1000003)
 //   -DCFG_CAT=0|2      0 = int, 2 = ElemNTR (identity tracked, self-referential)
+#ifndef CFG_NO_EXTRAS
 #define AMC_NONSTD_FEATURES
+#endif
+#ifndef CFG_IMPL
+#define CFG_IMPL 0
+#endif
 #include <amc/fixedcapacityvector.hpp>
 #include <amc/flatset.hpp>
+#if CFG_IMPL == 1
 #include <amc/smallset.hpp>
+#endif
 #include <amc/smallvector.hpp>
 #include <amc/vector.hpp>
 
@@ -126,8 +133,19 @@ using Ref = std::set<Elem, Cmp>;
 
 static const int kMaxPool = 4;
 static int gPool = 3;
-alignas(Set) static unsigned char gStore[kMaxPool][sizeof(Set)];
+alignas(Set) static unsigned char gStoreA[kMaxPool][sizeof(Set)];
+alignas(Set) static unsigned char gStoreB[kMaxPool][sizeof(Set)];
+static unsigned char *gStore[kMaxPool] = {gStoreA[0], gStoreA[1], gStoreA[2], gStoreA[3]};
 static Set *S(int c) { return reinterpret_cast<Set *>(gStore[c]); }
+static bool relocateBytes(int c) {
+  if (!amc::is_trivially_relocatable<Set>::value) return false;
+  unsigned char *from = gStore[c];
+  unsigned char *to = from == gStoreA[c] ? gStoreB[c] : gStoreA[c];
+  std::memcpy(to, from, sizeof(Set));
+  std::memset(from, 0xAB, sizeof(Set));
+  gStore[c] = to;
+  return true;
+}
 alignas(Ref) static unsigned char gRefStore[kMaxPool][sizeof(Ref)];
 static Ref *R(int c) { return reinterpret_cast<Ref *>(gRefStore[c]); }
 
@@ -356,6 +374,7 @@ int main() {
           for (auto it = qr.first; it != qr.second; ++it) os2 << val(*it) << ";";
           if (os.str() != os2.str()) oracle = "MISMATCH-ret";
         } else if (op == "fromv" || op == "asgv") {
+#ifdef AMC_NONSTD_FEATURES
           std::vector<int> vals = parseList(t[2]);
 #if CFG_UVEC != 2
           UVec v;
@@ -373,12 +392,19 @@ int main() {
 #else
           skip = true;
 #endif
+#else
+          skip = true;
+#endif
         } else if (op == "steal") {
+#ifdef AMC_NONSTD_FEATURES
 #if CFG_UVEC != 2
           UVec v = s.steal_vector();
           ret = "[" + listOf(v) + "]";
           if (listOf(v) != listOf(r)) oracle = "MISMATCH-ret";
           r.clear();
+#else
+          skip = true;
+#endif
 #else
           skip = true;
 #endif
@@ -400,9 +426,17 @@ int main() {
             gCmp = 0;
             s.merge(*S(d));
             cmpsOp = gCmp;
+#if __cplusplus >= 201703L
             r.merge(*R(d));
+#else
+            for (auto it = R(d)->begin(); it != R(d)->end();) {
+              if (r.insert(*it).second) it = R(d)->erase(it);
+              else ++it;
+            }
+#endif
           }
         } else if (op == "xfer") {
+#if __cplusplus >= 201703L
           // node = d.extract(v); c.insert(std::move(node)); a node that was not inserted goes back into d
           int d = (int)N(2);
           Elem e((int)N(3));
@@ -423,7 +457,11 @@ int main() {
               ret = "absent";
             }
           }
+#else
+          skip = true;
+#endif
         } else if (op == "extp") {
+#if __cplusplus >= 201703L
           if (sz == 0) skip = true;
           else {
             size_t p = N(2) % sz;
@@ -435,6 +473,9 @@ int main() {
             r.erase(Elem(victim));
             if (node.empty() || val(node.value()) != victim) oracle = "MISMATCH-node";
           }
+#else
+          skip = true;
+#endif
         } else if (op == "swp") {
           int d = (int)N(2);
           if (c == d) skip = true;
@@ -466,6 +507,8 @@ int main() {
                                                   [](const Elem &a, const Elem &b) { return val(a) < val(b); });
           if (eq != req || lt != rlt) oracle = "MISMATCH-ret";
           if ((s != *S(d)) == eq || (s <= *S(d)) != !(*S(d) < s) || (s > *S(d)) != (*S(d) < s)) oracle = "MISMATCH-cmp";
+        } else if (op == "reloc") {
+          if (!relocateBytes(c)) skip = true;
         } else if (op == "iter") {
           // forward and reverse walks visit every element exactly once
           std::vector<int> f, b;
@@ -501,8 +544,10 @@ int main() {
           res = "bad-op";
         }
       }
+#if CFG_IMPL == 1
     } catch (const std::bad_variant_access &) {
       res = "exc:variant";
+#endif
     } catch (const std::out_of_range &) {
       res = "exc:range";
     } catch (const std::exception &) {
